@@ -239,7 +239,7 @@ MC_FEATURES = {"print", "glue", "tags", "icond", "iseq", "set", "temp", "block_i
 
 
 MC_INVARIANTS = ("LookAheadIsInvisible", "MessagesOnce", "SwitchAwayAndBack", "OthersUntouched", "EvalLeavesTheStoryAlone", "SaveLoadIdentity", "ResetIsInitial",
-                 "RefusedIsNoOp")
+                 "RefusedIsNoOp", "ObserversMatchPolling")
 
 
 def small_programs(seed, n, limit=60):
